@@ -109,6 +109,9 @@ BUFR_Tables *bufr_create_tables(void)
    BUFR_Tables *t;
 
    t = (BUFR_Tables *)malloc(sizeof(BUFR_Tables));
+#ifdef LIBECBUFR_VERIF
+   bufr_verif_live[BUFR_VK_TABLES]++;
+#endif
    t->master.version = 0;   /* not defined */
    t->master.tableB = NULL;
    t->master.tableD = NULL;
@@ -179,6 +182,9 @@ void  bufr_free_tables( BUFR_Tables *tbls )
       arr_free( &(tbls->tableB_cache) );
 
    free( tbls );
+#ifdef LIBECBUFR_VERIF
+   bufr_verif_live[BUFR_VK_TABLES]--;
+#endif
    }
 
 /**
@@ -1218,6 +1224,9 @@ EntryTableB *bufr_new_EntryTableB(void)
    EntryTableB *r;
 
    r = (EntryTableB *)malloc(sizeof(EntryTableB));
+#ifdef LIBECBUFR_VERIF
+   bufr_verif_live[BUFR_VK_ENTRYB]++;
+#endif
    r->descriptor         = 0;
    r->encoding.af_nbits  = 0;
    r->encoding.ref_nbits = 0;
@@ -1249,6 +1258,9 @@ void bufr_free_EntryTableB( EntryTableB *r )
       if (r->unit != NULL)  free( r->unit );
       r->unit = NULL;
       free( r );
+#ifdef LIBECBUFR_VERIF
+   bufr_verif_live[BUFR_VK_ENTRYB]--;
+#endif
       }
    }
 
@@ -1588,6 +1600,9 @@ EntryTableD *bufr_new_EntryTableD(int descriptor, const char *dsc, int dsclen, i
    EntryTableD *r;
 
    r = (EntryTableD *)malloc(sizeof(EntryTableD));
+#ifdef LIBECBUFR_VERIF
+   bufr_verif_live[BUFR_VK_ENTRYD]++;
+#endif
    r->description = NULL;
    r->descriptors = NULL;
    r->count = 0;
@@ -1663,6 +1678,9 @@ void bufr_free_EntryTableD( EntryTableD *r )
 		if (r->description != NULL)  free( r->description );
 		if (r->descriptors != NULL)  free( r->descriptors );
 		free( r );
+#ifdef LIBECBUFR_VERIF
+   bufr_verif_live[BUFR_VK_ENTRYD]--;
+#endif
       }
    }
 
